@@ -100,7 +100,7 @@ func RunC14(t *testing.T) {
 	const prop = "C14"
 	col := GlobalCollector(prop)
 	runs := envInt("VERIF_C14_RUNS", 4)
-	col.AddRule(fmt.Sprintf("A: operation logs generated against Engine K (many bidders per auction so that settlements issue several per-bidder transfers and refunds, several auctions settling in one block), then executed %d times on fresh applications with a deterministic genesis (fixed keys, fixed validator) through signed transactions in FinalizeBlock + Commit; the ordered FinalizeBlock responses (all events incl. bank coin_spent/coin_received/transfer, tx results), the app hash after every commit and the final module + balance dump must be identical across runs. In the thorough tier the same log is additionally executed in separate processes. Plus: the hook dispatch order produced by the module's app-wiring (InvokeSetHooks) for generated sets of 2-8 hook providers, repeated 6 times, must be the lexical module order every time. Non-trivial = a block issuing >=3 per-bidder transfers (a settlement with >=3 winners/refunds).", runs))
+	col.AddRule(fmt.Sprintf("A: operation logs generated against Engine K (many bidders per auction so that settlements issue several per-bidder transfers and refunds, several auctions settling in one block), then executed %d times on fresh applications with a deterministic genesis (fixed keys, fixed validator) through signed transactions in FinalizeBlock + Commit (the second execution is restarted - a new application object over the same database - after every third block); the ordered FinalizeBlock responses (all events incl. bank coin_spent/coin_received/transfer, tx results), the app hash after every commit and the final module + balance dump must be identical across runs. In the thorough tier the same log is additionally executed in separate processes. Plus: the hook dispatch order produced by the module's app-wiring (InvokeSetHooks) for generated sets of 2-8 hook providers, repeated 6 times, must be the lexical module order every time. Non-trivial = a block issuing >=3 per-bidder transfers (a settlement with >=3 winners/refunds).", runs))
 	body := func(rt *rapid.T, ops []Op) {
 		var labels map[string]int
 		if rt != nil {
@@ -140,8 +140,16 @@ func RunC14(t *testing.T) {
 			if err != nil {
 				panic(err)
 			}
+			if r == 1 {
+				// "regardless of the process that runs it": this execution is restarted (new
+				// application object over the same database) after every third block
+				a.RestartEvery = 3
+			}
 			a.RunLog(ops)
 			tr := a.Transcript()
+			if labels != nil && r == 1 {
+				labels["c14:process-restarts"] += a.Restarts
+			}
 			if r == 0 {
 				ref = tr
 				if labels != nil {
